@@ -1,5 +1,4 @@
-// lvalue driver: double and the scalar archetype (see drv_lvalue.h).
-#include "arch.h"
+// lvalue driver for double (see drv_lvalue.h); the archetype instantiation lives in drv_arch.cpp, where a compile
+// error is C19's finding.
 #include "drv_lvalue.h"
 template void vt::drive_lvalue<double>();
-template void vt::drive_lvalue<vt::Arch>();
